@@ -605,13 +605,41 @@ def run(ctx):
         if sel is not None:
             g, xs = sel
             # inside the closure: a membership test whose "not contained" outcome is needed to return true
+            # the test may sit in the selecting closure itself or in a later `.filter(..)` of the same iterator chain
+            chain_closures = [g]
+            fcalls = [(b_, t_) for b_, t_ in sc.calls() if (t_.get("f") or "").endswith("Iterator::filter")]
+
+            def _closure_of(t_):
+                for a_ in t_["a"][1:]:
+                    pl_ = vf.op_place(a_)
+                    for bb_ in sc.bbs:
+                        for st_ in bb_["s"]:
+                            if st_["k"] == "a" and pl_ and st_["d"] == [pl_[0], []] and st_["r"]["k"] == "agg" and st_["r"].get("ak") == "closure":
+                                return db.fns.get(st_["r"]["adt"])
+                return None
+
+            first = [(b_, t_) for b_, t_ in fcalls if _closure_of(t_) is g]
+            frontier = {b_ for b_, _t in first}
+            grew = True
+            while grew:
+                grew = False
+                for b_, t_ in fcalls:
+                    if b_ in frontier:
+                        continue
+                    if any(x_[0] == "call" and x_[2] in frontier for x_ in vf.producers(sc, t_["a"][0]) if len(x_) > 2):
+                        frontier.add(b_)
+                        cg_ = _closure_of(t_)
+                        if cg_ is not None:
+                            chain_closures.append(cg_)
+                        grew = True
             tests = []
-            for cb_, ct_ in g.calls():
-                nm_ = ct_.get("f") or ""
-                if nm_.endswith(("::contains", "::contains_key")) or nm_.endswith(("Iterator::any",)):
-                    tests.append((cb_, ct_))
+            for gg in chain_closures:
+                for cb_, ct_ in gg.calls():
+                    nm_ = ct_.get("f") or ""
+                    if nm_.endswith(("::contains", "::contains_key")) or nm_.endswith(("Iterator::any",)):
+                        tests.append((gg, cb_, ct_))
             why = "the closure that selects the records to delete does not ask whether the commitment was found on chain"
-            for cb_, ct_ in tests:
+            for g, cb_, ct_ in tests:
                 gd = cfg.call_guard(g, cb_)
                 rets_true = [bb_i for bb_i, bb in enumerate(g.bbs) for st in bb["s"] if st["k"] == "a" and st["d"] == [0, []] and st["r"]["k"] == "use" and st["r"]["o"].get("k") is not None and st["r"]["o"]["k"].get("v") == "1"]
                 direct = [bb_i for bb_i, bb in enumerate(g.bbs) for st in bb["s"] if st["k"] == "a" and st["d"] == [0, []] and not (st["r"]["k"] == "use" and st["r"]["o"].get("k") is not None)]
